@@ -19,7 +19,8 @@ pub(crate) fn meta_name_value_2_path(name_value: &MetaNameValue) -> syn::Result<
                 return lit.parse();
             }
         },
-        Expr::Path(path) => return Ok(path.path.clone()),
+        // `<T as Trait>::f` is not a `Path`, the other forms refuse it as well
+        Expr::Path(path) if path.qself.is_none() => return Ok(path.path.clone()),
         _ => (),
     }
 
